@@ -1096,6 +1096,73 @@ def _classes(case):
     return c
 
 
+# ---------------------------------------------------------------------------
+# high orders (n = 17 ... 60): "every order n" beyond what numerical differentiation in multiprecision can afford.  For the
+# functions whose n-th derivative has a textbook closed form the reference is that closed form evaluated with 60 digits (mpmath);
+# it is independent of how the module organises its own computation (integer prefactors, recursions, powers).
+
+_L2, _L10 = (lambda: mpmath.log(2)), (lambda: mpmath.log(10))
+HIGH = {
+    'exp': (lambda x, n: mpmath.exp(x)), 'expm1': (lambda x, n: mpmath.exp(x)), 'exp2': (lambda x, n: _L2() ** n * mpf(2) ** x),
+    'log': (lambda x, n: (-1) ** (n - 1) * mpmath.factorial(n - 1) / x ** n),
+    'log2': (lambda x, n: (-1) ** (n - 1) * mpmath.factorial(n - 1) / x ** n / _L2()),
+    'log10': (lambda x, n: (-1) ** (n - 1) * mpmath.factorial(n - 1) / x ** n / _L10()),
+    'log1p': (lambda x, n: (-1) ** (n - 1) * mpmath.factorial(n - 1) / (1 + x) ** n),
+    'reciprocal': (lambda x, n: (-1) ** n * mpmath.factorial(n) / x ** (n + 1)),
+    'sqrt': (lambda x, n: mpmath.ff(mpf(1) / 2, n) * x ** (mpf(1) / 2 - n)),
+    'sin': (lambda x, n: [mpmath.sin, mpmath.cos, (lambda y: -mpmath.sin(y)), (lambda y: -mpmath.cos(y))][n % 4](x)),
+    'cos': (lambda x, n: [mpmath.cos, (lambda y: -mpmath.sin(y)), (lambda y: -mpmath.cos(y)), mpmath.sin][n % 4](x)),
+    'sinh': (lambda x, n: mpmath.sinh(x) if n % 2 == 0 else mpmath.cosh(x)),
+    'cosh': (lambda x, n: mpmath.cosh(x) if n % 2 == 0 else mpmath.sinh(x)),
+    'square': (lambda x, n: mpf(0)), 'negative': (lambda x, n: mpf(0)),
+}
+HIGH_N = (17, 60)
+
+
+@st.composite
+def high_cases(draw, name, tier):
+    n = draw(st.one_of(st.integers(*HIGH_N), st.integers(17, 30)))
+    k = draw(st.integers(1, 4))
+    xs = draw(st.lists(st.one_of(gen.nice_floats(0.05, 4.0), gen.nice_floats(0.5, 40.0)), min_size=k, max_size=k))
+    form = draw(st.sampled_from(['arr1', 'arr1', 'np64', 'pyfloat', 'arr2']))
+    return {'name': name, 'n': n, 'x': [float(v) for v in xs], 'form': form}
+
+
+def prop_high(case, stats):
+    name, n = case['name'], case['n']
+    f = getattr(algopy.nthderiv, name)
+    xs = case['x']
+    form = case['form']
+    if form == 'arr1':
+        arg = np.array(xs)
+    elif form == 'arr2':
+        arg = np.array([xs, xs[::-1]])
+    elif form == 'np64':
+        arg = np.float64(xs[0])
+    else:
+        arg = float(xs[0])
+    with np.errstate(all='ignore'):
+        got = guard(lambda: f(arg, n=n))
+    got = np.asarray(got, dtype=float)
+    pts = np.asarray(arg, dtype=float)
+    if got.shape != pts.shape:
+        raise Violation('%s(x, n=%d): result shape %s for an argument of shape %s' % (name, n, got.shape, pts.shape))
+    old = mp.dps
+    mp.dps = 60
+    try:
+        for g, x in zip(got.reshape(-1), pts.reshape(-1)):
+            ref = HIGH[name](mpf(float(x)), n)
+            if abs(ref) > mpf(10) ** 290 or (ref != 0 and abs(ref) < mpf(10) ** -290):
+                stats['high-order:reference outside the double range'] = stats.get('high-order:reference outside the double range', 0) + 1
+                continue
+            scale = max(abs(ref), mpf(1) if name in ('sin', 'cos') else mpf(0))
+            if not np.isfinite(g) or abs(mpf(float(g)) - ref) > mpf(10) ** -9 * scale:
+                raise Violation('%s(%r, n=%d) [%s] = %r, the closed form of the n-th derivative gives %s'
+                                % (name, float(x), n, form, float(g), mpmath.nstr(ref, 17)))
+    finally:
+        mp.dps = old
+
+
 def _nontrivial(case):
     return case['n'] >= 2
 
@@ -1114,6 +1181,11 @@ def buckets(tier):
                              nontrivial=_nontrivial, classes=_classes,
                              shards={'quick': (8 if name == 'hyperu' else 4) if slow else 1, 'thorough': 12 if slow else 2},
                              weight=60.0 if slow else 1.0))
+            if name in HIGH:
+                bl.append(Bucket('high-order:' + name, (lambda name=name: high_cases(name, tier)), prop_high, {'quick': 60, 'thorough': 1500},
+                                 nontrivial=(lambda case: True),
+                                 classes=(lambda case: ['n=%d..%d' % (10 * (case['n'] // 10), 10 * (case['n'] // 10) + 9), 'form=' + case['form'],
+                                                        'n>=22 (21! exceeds int64)' if case['n'] >= 22 else 'n<22']), weight=0.5))
         elif name in PIECEWISE:
             bl.append(Bucket(name, (lambda name=name: piecewise_cases(name, tier)), prop_piecewise,
                              {'quick': 120, 'thorough': 3000}, nontrivial=_nontrivial, classes=_classes, weight=0.2))
